@@ -159,6 +159,73 @@ class Slotted(object):
     return ('slotted', self.w - a)
 
 
+class Expr(object):
+  """What a symbolic == returns: truthy, but not a bool."""
+
+  def __init__(self, text):
+    self.text = text
+
+  def __bool__(self):
+    return True
+
+
+class SymbolicCallable(object):
+  """A callable whose == builds an expression object (symbolic / tensor-like)."""
+
+  def __eq__(self, other):
+    return Expr('eq')
+
+  def __hash__(self):
+    return 17
+
+  def __call__(self, a, b=2):
+    LOG.append(('SymbolicCallable.__call__', a, b))
+    if a > 0:
+      return ('symbolic', a + b)
+    return ('symbolic', a - b)
+
+
+class StrictEqCallable(object):
+  """A callable that refuses to be compared with foreign objects."""
+
+  def __eq__(self, other):
+    if not isinstance(other, StrictEqCallable):
+      raise TypeError('cannot compare')
+    return self is other
+
+  def __hash__(self):
+    return 23
+
+  def __call__(self, a, b=2):
+    LOG.append(('StrictEqCallable.__call__', a, b))
+    if a > 0:
+      return ('stricteq', a + b)
+    return ('stricteq', a - b)
+
+
+class Tape(list):
+  """A user type for which overloads of the builtins are registered."""
+
+
+def _compile_pseudo():
+  import linecache
+  src = ("def pseudo_fn(a, b=2):\\n"
+         "  LOG.append(('pseudo_fn', a, b))\\n"
+         "  if a > 0:\\n"
+         "    return ('pseudo', a + b)\\n"
+         "  return ('pseudo', a - b)\\n")
+  name = '<generated %s pseudo>' % __name__
+  ns = {'LOG': LOG}
+  exec(compile(src, name, 'exec'), ns)
+  linecache.cache[name] = (len(src), None, src.splitlines(True), name)
+  global PSEUDO_SOURCES
+  PSEUDO_SOURCES = {name: src}
+  return ns['pseudo_fn']
+
+
+pseudo_fn = _compile_pseudo()     # compiled under a pseudo file name, source registered in linecache
+
+
 class BadRepr(object):
   """repr() of this object (and of its bound methods) fails."""
 
@@ -428,10 +495,10 @@ Z = {}
 
 class Target(object):
   __slots__ = ('name', 'label', 'a', 'b', 'argsets', 'fnname', 'inner', 'remember_exempt',
-               'module_rule', 'lazy')
+               'module_rule', 'lazy', 'overload')
 
   def __init__(self, name, label, a, b, argsets=None, fnname=None, inner=None,
-               remember_exempt=False, module_rule=None, lazy=False):
+               remember_exempt=False, module_rule=None, lazy=False, overload=None):
     self.name = name
     self.label = label
     self.a = a              # object in the real pool (goes through converted_call)
@@ -442,6 +509,7 @@ class Target(object):
     self.remember_exempt = remember_exempt
     self.module_rule = module_rule
     self.lazy = lazy
+    self.overload = overload
 
 
 ARGSETS = {
@@ -460,6 +528,7 @@ ARGSETS = {
     'self_a': [],     # filled per target (needs an instance as first argument)
     'dec': [((__import__('decimal').Decimal('-1.234'),), None), ((), None)],
     'one': [((1,), None), ((), None)],
+    'tape1': [(('@tape',), None), (('@tape',), {})],
     'len': [(([1, 2, 3],), None), (((),), {}), ((5,), None), ((), None)],
     'abs': [((-3,), None), ((2.5,), {}), (('x',), None)],
     'max': [((1, 5, 3), None), (([4, 2],), {'key': None}), ((), None), ((3,), {'default': 0})],
@@ -529,6 +598,13 @@ def build_pool(lane, which):
   add('metaclass_call2', 'callable_obj', U.WithMetaAndCall, fnname='__call__')
   add('shadowed_call', 'callable_obj', U.ShadowedCall(), fnname='__call__')
   add('manual_bound', 'function', types.MethodType(U.free_method, c1), fnname='free_method')
+  add('symbolic_eq_callable', 'callable_obj', U.SymbolicCallable(), fnname='__call__')
+  add('strict_eq_callable', 'callable_obj', U.StrictEqCallable(), fnname='__call__')
+  add('pseudo_file_fn', 'function', U.pseudo_fn, fnname='pseudo_fn')
+  # builtins called on a user type with registered overloads: the overload must be dispatched on EVERY call
+  add('len_tape', 'builtin_overloaded', len, argsets='tape1', overload='len')
+  add('sorted_tape', 'builtin_overloaded', sorted, argsets='tape1', overload='sorted')
+  add('enumerate_tape', 'builtin_overloaded', enumerate, argsets='tape1', overload='enumerate', lazy=True)
   add('badrepr_method', 'unsupported', U.BadRepr().meth, fnname='meth')      # for/else: natural failure
   add('badrepr_callable', 'callable_obj', U.BadRepr(), fnname='__call__')
   add('local_gen_caller', 'unsupported', U.local_gen_caller, fnname='local_gen_caller')   # local generators: rejected
@@ -674,6 +750,19 @@ def init_zygote(lane):
     t_self = (self_a, self_b)
     if self_a is not None:
       Z.setdefault('selfs', {})[name] = t_self
+  from malt.operators import py_builtins
+  hits = Z['overload_hits'] = {}
+
+  def mk(name, real):
+    def overload(*a, **k):
+      # (the operators hand their overloads operator-specific extra arguments)
+      hits[name] = hits.get(name, 0) + 1
+      return real(a[0])
+    return overload
+  for nm, real in (('len', len), ('sorted', sorted), ('enumerate', enumerate)):
+    reg = getattr(py_builtins, nm + '_registry', None)
+    if reg is not None:
+      reg.register(A['U'].Tape, mk(nm, real))
   Z['targets'] = targets
   Z['exempt_ids'] = set(_rem_id(t.a) for t in targets.values() if t.remember_exempt)
   Z['A'], Z['B'] = A, B
@@ -736,8 +825,8 @@ def model_converts(t, opts, status, remembered):
     return False
   if status == 'DISABLED':
     return False
-  if label in ('artifact', 'builtin', 'native', 'constructor', 'lru_cache', 'wrapt', 'stdlib',
-               'exec'):
+  if label in ('artifact', 'builtin', 'builtin_overloaded', 'native', 'constructor', 'lru_cache', 'wrapt',
+               'stdlib', 'exec'):
     return False
   if label in ('callable_static', 'callable_class'):
     return None
@@ -786,7 +875,7 @@ def _gen_fault(rng, tier):
   return {'kind': 'disk-full', 'budget': rng.choice([0, 10, 200, 1000])}
 
 
-CONVERTIBLE = ['caller', 'caller', 'badrepr_method', 'badrepr_callable', 'local_gen_caller', 'decorated_local_caller', 'metaclass_call2', 'shadowed_call', 'fn', 'star_caller', 'nested2', 'raiser_passthrough', 'raiser', 'falsy_bag_method', 'falsy_obj_method', 'nt_method', 'metaclass_call', 'slotted_callable', 'manual_bound', 'fn', 'lam', 'nested', 'bound', 'unbound', 'cmeth', 'cmeth_inst', 'smeth', 'callable',
+CONVERTIBLE = ['caller', 'caller', 'symbolic_eq_callable', 'strict_eq_callable', 'pseudo_file_fn', 'badrepr_method', 'badrepr_callable', 'local_gen_caller', 'decorated_local_caller', 'metaclass_call2', 'shadowed_call', 'fn', 'star_caller', 'nested2', 'raiser_passthrough', 'raiser', 'falsy_bag_method', 'falsy_obj_method', 'nt_method', 'metaclass_call', 'slotted_callable', 'manual_bound', 'fn', 'lam', 'nested', 'bound', 'unbound', 'cmeth', 'cmeth_inst', 'smeth', 'callable',
                'decorated', 'caller', 'raiser', 'partial1', 'partial_nested', 'partial_method',
                'partial_chain', 'partial_chain3', 'partial_subclass',
                'mod:malty', 'mod:numpy_like', 'mod:reporting', 'mod:copyx', 'np_sub_overridden',
@@ -923,6 +1012,9 @@ class Run(object):
   def _args(self, t, idx, which):
     aset = ARGSETS[t.argsets] if isinstance(t.argsets, str) else t.argsets
     args, kwargs = aset[idx % len(aset)]
+    if args and args[0] == '@tape':
+      U = Z['A']['U'] if which == 'a' else Z['B']['U']
+      args = (U.Tape([3, 1, 2]),) + tuple(args[1:])
     if args and args[0] == '@self':
       s = Z['selfs'][t.name][0 if which == 'a' else 1]
       args = (s,) + tuple(args[1:])
@@ -944,7 +1036,7 @@ class Run(object):
       if path and os.path.exists(path) and path.startswith(self.lane.scratch):
         os.rename(path, path + '.gone')
         linecache.clearcache()
-        undo.append(lambda: (os.rename(path + '.gone', path), linecache.clearcache()))
+        undo.append(lambda: (os.rename(path + '.gone', path), linecache.clearcache(), _reregister_pseudo()))
     elif k == 'tmp-gone':
       old = tempfile.tempdir
       tempfile.tempdir = os.path.join(self.rdir, 'no-such-dir')
@@ -986,6 +1078,7 @@ class Run(object):
         undo = self._apply_env_fault(fault, t)
     if op.get('strict'):
       os.environ['AUTOGRAPH_STRICT_CONVERSION'] = '1'
+    hits0 = dict(Z['overload_hits'])
     OBS['requests'] = []
     OBS['fallbacks'] = []
     OBS['on'] = True
@@ -1046,6 +1139,14 @@ class Run(object):
     for fid_, otup, _ in fallbacks:
       if fid_ not in Z['exempt_ids']:
         self.remembered.setdefault((fid_, otup), i)
+    # ---- T7 overloads of builtins are dispatched on every call ---------------------------
+    if t.overload and op['status'] != 'DISABLED' and got[0] == 'ok':
+      d = Z['overload_hits'].get(t.overload, 0) - hits0.get(t.overload, 0)
+      self.stats['overload_checks'] = self.stats.get('overload_checks', 0) + 1
+      if d != 1:
+        self.viol('T7', '%s: the registered overload of builtin %s ran %d times (once is documented), '
+                  'earlier calls of this builtin: %d' % (where, t.overload, d, hits0.get(t.overload, 0)),
+                  'overload-dispatch-%d' % min(d, 2))
     # ---- T5 strict ------------------------------------------------------------------
     if op.get('strict') and fired:
       self.stats['strict_raises'] += 1
@@ -1139,6 +1240,14 @@ class Run(object):
         self.do_op(i, op)
     self.sim.add_thread('client', target)
     return self.sim.run()
+
+
+def _reregister_pseudo():
+  """linecache.clearcache() (part of the src-gone fault) also forgets the
+  sources registered for functions compiled under pseudo file names."""
+  for P in (Z['A'], Z['B']):
+    for name, src in getattr(P['U'], 'PSEUDO_SOURCES', {}).items():
+      linecache.cache[name] = (len(src), None, src.splitlines(True), name)
 
 
 def _fault_str(f):
